@@ -29,6 +29,7 @@ pub struct Ctx {
     pub errors: Vec<String>,
     pub soft: Vec<String>,
     pub uncontracted: Vec<String>,
+    pub cur_encl: String,   // the function whose closure literals are being emitted
     pub consts_done: BTreeSet<String>,
     pub params: BTreeMap<String, Vec<String>>,   // pinned parameter names (contracts/PARAMS.json): a renamed parameter is renamed back (rule P4)
     pub dump_params: BTreeMap<String, Vec<String>>,
@@ -800,11 +801,13 @@ fn emit_fn(cx: &mut Ctx, specs: &mut Specs, em: &mut Emitter, ex: &Extract, file
         for lc in lifted_closures { cx.pending.push((owned.clone(), lc, ex.file.clone())); }
         return;
     }
-    let mut work = lifted_closures;
+    let mut work: Vec<(rewrite::LiftedClosure, String)> = lifted_closures.into_iter().map(|l| (l, final_name.clone())).collect();
     while !work.is_empty() {
-        let lc = work.remove(0);
+        let (lc, encl) = work.remove(0);
+        cx.cur_encl = encl;
         let more = emit_lifted(cx, specs, em, &all_gens, &lc, &ex.file);
-        work.extend(more);
+        cx.cur_encl = String::new();
+        for m in more { work.push((m, lc.name.clone())); }
     }
 }
 
@@ -1094,6 +1097,12 @@ fn emit_lifted(cx: &mut Ctx, specs: &mut Specs, em: &mut Emitter, gens: &[&syn::
     em.functions.push(emit::FnInfo { name: ctor.clone(), file: file.to_string(), src_line: lc.line, gen_start: start, gen_end: em.line(), kind: "closure-constructor".into(), path: lc.name.clone(), loops: 0, captured: lc.captures.clone() });
     em.raw("");
     // ---- lifted body, only when the spec gives its signature
+    // a closure literal the contracts know nothing about (an edit added it) is code of unknown behaviour inside its function: like a loop
+    // without a loop contract, a clause that fails in that function is not a verdict (the driver reports it as undecided); if everything
+    // there is proved all the same, it is proved whatever the closure does
+    if specs.sections.get(&format!("sig {}", lc.name)).is_none() && specs.sections.get(&format!("new {}", lc.name)).is_none() && specs.sections.get(&format!("sig {}", ctor)).is_none() && !noop && !cx.cur_encl.is_empty() {
+        let e = cx.cur_encl.clone(); if !cx.uncontracted.contains(&e) { cx.uncontracted.push(e); }
+    }
     let Some(sig) = specs.get(&format!("sig {}", lc.name)).map(|t| positional(t, lc)) else { return vec![]; };
     // A5p: a closure `move || { <prefix>; Box::pin(async move { .. }) }` does <prefix> when it is CALLED and the rest when the future it
     // returns is run. If the spec has `@sig F__prefix` / `@fn F__prefix`, the prefix is verified as a function of its own (what creating
@@ -1471,7 +1480,7 @@ fn main() {
     for t in &extra_types { if let Some((a, b)) = t.split_once("=>") { let pair = (a.trim().to_string(), b.trim().to_string()); if !unit.types.iter().any(|(x, _)| x == &pair.0) { unit.types.push(pair); } } }
     for t in &extra_traced { unit.traced.insert(t.clone()); }
     for t in &extra_eager { unit.eager.insert(t.clone()); unit.traced.insert(t.clone()); }
-    let mut cx = Ctx { unit, repo, probe, rules: BTreeMap::new(), errors: vec![], soft: vec![], uncontracted: vec![], consts_done: BTreeSet::new(), params: params.clone(), baseline_fns: baseline_fns.clone(), dump_params: BTreeMap::new(), cur_fn: String::new(), dropbody: dropbody.clone(), dropped: vec![], dropped_notes: vec![], files: BTreeMap::new(), file_ranges: BTreeMap::new(), local_mods: BTreeSet::new(), pending: vec![] };
+    let mut cx = Ctx { unit, repo, probe, rules: BTreeMap::new(), errors: vec![], soft: vec![], uncontracted: vec![], cur_encl: String::new(), consts_done: BTreeSet::new(), params: params.clone(), baseline_fns: baseline_fns.clone(), dump_params: BTreeMap::new(), cur_fn: String::new(), dropbody: dropbody.clone(), dropped: vec![], dropped_notes: vec![], files: BTreeMap::new(), file_ranges: BTreeMap::new(), local_mods: BTreeSet::new(), pending: vec![] };
     let mut specs = Specs::default();
     specs.defines = cx.unit.defines.clone();
     for s in cx.unit.specs.clone() { if let Err(e) = specs.load(&root.join(&s)) { eprintln!("hx: {}", e); std::process::exit(2); } }
